@@ -348,10 +348,7 @@ def log_softmax_forward(a:np.ndarray, axis:int) -> np.ndarray:
 
 def log_softmax_backward(grad:np.ndarray, log_softmax_a:np.ndarray, axis:int) -> np.ndarray:
     softmax = np.exp(log_softmax_a)
-    jacobians = np.stack([np.diag(y) - np.outer(y, y) for y in softmax])
-    dlog_dsoftmax = (1/(softmax + epsilon)) * grad
-    dlog_dsoftmax = np.expand_dims(dlog_dsoftmax, axis=axis)
-    a_grad = (dlog_dsoftmax @ jacobians).sum(axis=axis)
+    a_grad = grad - softmax * grad.sum(axis=axis, keepdims=True)
     return a_grad
 
 # **************************
